@@ -156,6 +156,10 @@ func (acc *DB) ExecTransfer(from, to, execaddr string, amount int64) (*types.Rec
 	}
 	accFrom := acc.LoadExecAccount(from, execaddr)
 	accTo := acc.LoadExecAccount(to, execaddr)
+	// from 和 to 写法不同(例如十六进制地址仅大小写不同)也可能是存储中的同一个账户
+	if accFrom.Addr == accTo.Addr {
+		return nil, types.ErrSendSameToRecv
+	}
 
 	if accFrom.GetBalance()-amount < 0 {
 		return nil, types.ErrNoBalance
@@ -192,6 +196,10 @@ func (acc *DB) ExecTransferFrozen(from, to, execaddr string, amount int64) (*typ
 	}
 	accFrom := acc.LoadExecAccount(from, execaddr)
 	accTo := acc.LoadExecAccount(to, execaddr)
+	// from 和 to 写法不同(例如十六进制地址仅大小写不同)也可能是存储中的同一个账户
+	if accFrom.Addr == accTo.Addr {
+		return nil, types.ErrSendSameToRecv
+	}
 	b := accFrom.GetFrozen() - amount
 	if b < 0 {
 		return nil, types.ErrNoBalance
